@@ -130,6 +130,12 @@ def build(wiring):
                 seed = ds[0]
                 unit = (r, cn)
         if seed is None:
+            if len(readers.get(c, [])) == 1 and s["par"] >= 1:
+                # an EMA/RMA/SMMA goroutine without an inner seed pipeline (it reads its first P values itself): the same
+                # protocol as a window stage - nothing for P-1 values, then one value per input
+                s["kind"] = "MovingStd"
+                net.notes.append("XmaCore on channel %d has no inner seed pipeline: modelled as a self-contained window of %d" % (c, s["par"]))
+                continue
             raise NetError("XmaCore on channel %d: cannot identify its seed channel" % c)
         dangling.remove(seed)
         s["ins"] = [seed, c]
@@ -152,6 +158,10 @@ def build(wiring):
                 ok = False
             if k["kind"] == "Dup" and len(k["outs"]) != 2:
                 ok = False
+        if cn == {r} and stages[r]["kind"] == "Head":
+            # the goroutine reads Head's output itself (sums the seed values) instead of a seed pipeline's single value
+            s["par2"] = 1
+            net.notes.append("XmaCore on channel %d reads its seed values directly from Head(%d)" % (c, stages[r]["par"]))
         s["_unit_ok"] = ok
         if not ok:
             net.unrecognised_units.append({"chan": c, "period": P, "kinds": kinds})
